@@ -162,8 +162,13 @@ func (c *capCfg) policy(p *packet) expect {
 		// application traffic
 		if dnsEligible {
 			e.class = "app-dns"
-			if !inU16(c.OutPortsExc, 53) && c.groupPass(p.gid) == 1 {
+			switch g := c.groupPass(p.gid); {
+			case !inU16(c.OutPortsExc, 53) && g == 1:
 				e.clause, e.want = "dns-capture", []string{"DNS"}
+			case g == 0 && p.proto == "tcp":
+				// application outbound TCP of a group that is not to be captured is not redirected at all - the
+				// property's "redirected iff" has no exception for port 53 (UDP is not the property's subject)
+				e.clause, e.want = "app-outbound-tcp53-of-group-outside-capture", []string{"NONE"}
 			}
 			return e
 		}
